@@ -123,6 +123,44 @@ def _observations(seed):
         if abs(f.sum() - (pts[-1, c] - pts[0, c])) > 1e-9:
             notes.append(f"wire component {c} sums to {f.sum()}, electrodes "
                          f"differ by {pts[-1, c] - pts[0, c]}")
+    # the public wire class: a wire may come back to an electrode it has
+    # visited (closed loops sum to zero); its field is the sum of its segments
+    nw = rng.integers(3, 8)
+    wp = np.array([[rng.uniform(0.1, ext[d]-0.1) for d in range(3)]
+                   for _ in range(nw)])
+    k = rng.integers(3)
+    if k == 0:
+        wp = np.vstack([wp, wp[:1]])                 # closed loop
+    elif k == 1:
+        wp = np.vstack([wp, wp[1:2], wp[:1] + 0.05])  # revisits electrode 2
+    wsrc = emg3d.TxElectricWire(wp, strength=1.0)
+    wsegs = sum(fields._dipole_vector(grid, wp[i:i+2]).field
+                for i in range(len(wp)-1))
+    wf = fields.get_source_field(grid, wsrc, None)
+    if not np.allclose(wf.field, wsegs, rtol=1e-12, atol=1e-14):
+        notes.append(f"TxElectricWire ({'closed' if k == 0 else 'revisiting' if k == 1 else 'open'}) "
+                     f"is not the sum of its segments")
+    for c, f in enumerate((wf.fx, wf.fy, wf.fz)):
+        if abs(f.sum() - (wp[-1, c] - wp[0, c])) > 1e-9:
+            notes.append(f"TxElectricWire component {c} sums to {f.sum()}, "
+                         f"electrodes differ by {wp[-1, c] - wp[0, c]}")
+    # very short dipoles are dipoles: support and distribution as
+    # _dipole_vector (validated against DipoleOps.tla) gives them
+    for ln in (1e-2, 1e-4, 1e-7):
+        c0 = np.array([rng.uniform(0.3, ext[d]-0.3) for d in range(3)])
+        dd = rng.standard_normal(3)
+        dd *= ln/np.linalg.norm(dd)/2
+        el2 = np.array([c0 - dd, c0 + dd])
+        for src in (emg3d.TxElectricDipole(el2, strength=2.0),
+                    emg3d.TxElectricDipole(
+                        (*c0, *electrodes.dipole_to_point(el2)[:2]),
+                        strength=2.0, length=ln)):
+            got = fields.get_source_field(grid, src, None).field
+            want = 2.0*fields._dipole_vector(grid, src.points).field
+            if not np.allclose(got, want, rtol=1e-9, atol=1e-18) or \
+                    np.any((want == 0) & (got != 0)):
+                notes.append(f"dipole of length {ln}: source field is not "
+                             f"its dipole vector times strength")
     # point source: sums to the unit direction, anywhere inside the grid
     # (outer half cells, on nodes, at cell centres included)
     az, el = rng.uniform(-180, 180), rng.uniform(-90, 90)
